@@ -566,7 +566,7 @@ func init() {
 			for i := 0; i < 16; i++ {
 				s := d.NewSpec("exh", fmt.Sprintf("exh%d-%d", L, i), i, 16)
 				s.N = int64(L)
-				s.TimeoutS = 3000
+				s.TimeoutS = int(d.Pick(300, 3000))
 				if L == 3 {
 					s.Args["shorter"] = "1"
 				}
